@@ -105,7 +105,7 @@ void h_to_bytes(void) {
 	ASSUME(val(a) < m && val(b) < m); \
 	FN(r, a, b); \
 	CHECK(val(r) < m, #FN " result reduced"); \
-	CHECK(val(r) == (val(a) + val(b)) % m, #FN " = a+b mod m"); \
+	{ W sm = val(a) + val(b); CHECK(val(r) == (sm >= m ? sm - m : sm), #FN " = a+b mod m"); } \
 	FN(a, a, b); CHECK(val(a) == val(r), #FN " in place"); \
 	V_REACH(); }
 #define MODSUB(NAME, FN, M) void NAME(void) { \
@@ -113,7 +113,7 @@ void h_to_bytes(void) {
 	ASSUME(val(a) < m && val(b) < m); \
 	FN(r, a, b); \
 	CHECK(val(r) < m, #FN " result reduced"); \
-	CHECK(val(r) == (val(a) + m - val(b)) % m, #FN " = a-b mod m"); \
+	{ W df = val(a) + m - val(b); CHECK(val(r) == (df >= m ? df - m : df), #FN " = a-b mod m"); } \
 	FN(b, a, b); CHECK(val(b) == val(r), #FN " in place (r==b)"); \
 	V_REACH(); }
 #define MODNEG(NAME, FN, M) void NAME(void) { \
@@ -121,7 +121,7 @@ void h_to_bytes(void) {
 	ASSUME(val(a) < m); \
 	FN(r, a); \
 	CHECK(val(r) < m, #FN " result reduced"); \
-	CHECK((val(r) + val(a)) % m == 0, #FN " = -a mod m"); \
+	CHECK(val(r) + val(a) == m || (val(r) == 0 && val(a) == 0), #FN " = -a mod m"); \
 	V_REACH(); }
 
 MODADD(h_modp_add, sm2_z256_modp_add, P())
@@ -131,13 +131,20 @@ MODSUB(h_modn_sub, sm2_z256_modn_sub, N())
 MODNEG(h_modp_neg, sm2_z256_modp_neg, P())
 MODNEG(h_modn_neg, sm2_z256_modn_neg, N())
 
-void h_modp_dbl_tri(void) {
+void h_modp_dbl(void) {
 	uint64_t a[4], r[4]; any(a); W m = P();
 	ASSUME(val(a) < m);
 	sm2_z256_modp_dbl(r, a);
-	CHECK(val(r) == (2 * val(a)) % m, "modp_dbl");
+	{ W v2 = 2 * val(a); if (v2 >= m) v2 -= m; CHECK(val(r) == v2, "modp_dbl"); }
+	sm2_z256_modp_dbl(a, a);
+	CHECK(val(r) == val(a), "modp_dbl in place");
+	V_REACH();
+}
+void h_modp_tri(void) {
+	uint64_t a[4], r[4]; any(a); W m = P();
+	ASSUME(val(a) < m);
 	sm2_z256_modp_tri(r, a);
-	CHECK(val(r) == (3 * val(a)) % m, "modp_tri");
+	{ W v3 = 3 * val(a); if (v3 >= m) v3 -= m; if (v3 >= m) v3 -= m; CHECK(val(r) == v3, "modp_tri"); }
 	sm2_z256_modp_tri(a, a);
 	CHECK(val(r) == val(a), "modp_tri in place");
 	V_REACH();
@@ -147,7 +154,7 @@ void h_modp_haf(void) {
 	ASSUME(val(a) < m);
 	sm2_z256_modp_haf(r, a);
 	CHECK(val(r) < m, "haf reduced");
-	CHECK((2 * val(r)) % m == val(a), "2*haf(a) = a mod p");
+	{ W v2 = 2 * val(r); if (v2 >= m) v2 -= m; CHECK(v2 == val(a), "2*haf(a) = a mod p"); }
 	sm2_z256_modp_haf(a, a);
 	CHECK(val(r) == val(a), "haf in place");
 	V_REACH();
